@@ -155,6 +155,8 @@ func h2(fn func() error) (int, error) {
 
 func h3(fn func() error) error { return fn() }
 
+func c1() int { return 1 }
+
 func w(err error) error { return err }
 
 func w2(n int, err error) error { return err }
@@ -247,12 +249,23 @@ var vC14AnyBodies = []string{
 	"x := A1()\n\treturn x",
 }
 
+// bodies of a `() (int, string, error)` function
+var vC14TripleBodies = []string{
+	"return 1, \"s\", nil",
+	"return 1, \"s\", h(func() (int, error) { return c1(), errA })",
+	"return T0()",
+	"n, err := P0()\n\treturn n, \"t\", err",
+	"return c1(), \"u\", h3(func() error { return E1() })",
+	"if errA != nil {\n\t\treturn 2, \"v\", errA\n\t}\n\treturn 3, \"w\", E0()",
+}
+
 // what ResultsOf must print for the literal-only bodies ("" = not literal-only)
 var (
 	vC14ErrWant    = map[int]string{0: "(untyped nil)"}
 	vC14PairWant   = map[int]string{0: "(1, untyped nil)", 5: "(1 | 2, untyped nil | untyped nil)", 10: "(2, untyped nil)"}
 	vC14NamedWant  = map[int]string{}
 	vC14Named4Want = map[int]string{1: "(1, 2, \"s\", untyped nil)"}
+	vC14TripleWant = map[int]string{0: "(1, \"s\", untyped nil)"}
 	vC14AnyWant    = map[int]string{0: "(\"a\")", 1: "(1)", 6: "(untyped nil)", 8: "(120 | true)"}
 )
 
@@ -322,16 +335,16 @@ func vC14Index(fset *token.FileSet, pp, qq, rr *packages.Package) *vC14World {
 }
 
 // Verif_C14_ResultsOf: the functions E0 E1 (() error), P0 P1 (() (int, error)),
-// N0 (named results), N1 (a grouped named field followed by two more), A0 A1 (() any) get
+// N0 (named results), N1 (a grouped named field followed by two more), A0 A1 (() any), T0 (() (int, string, error)) get
 // bodies from the menus. `sym` selects which are chosen symbolically (bit i =
 // function i; the others get the body of the `fix`-th fixed rotation).
 func Verif_C14_ResultsOf(sym int, fix int) {
-	names := []string{"E0", "E1", "P0", "P1", "N0", "N1", "A0", "A1"}
-	sigs := []string{"error", "error", "(int, error)", "(int, error)", "(r int, err error)", "(a, b int, s string, err error)", "any", "any"}
-	menus := [][]string{vC14ErrBodies, vC14ErrBodies, vC14PairBodies, vC14PairBodies, vC14NamedBodies, vC14Named4Bodies, vC14AnyBodies, vC14AnyBodies}
-	wants := []map[int]string{vC14ErrWant, vC14ErrWant, vC14PairWant, vC14PairWant, vC14NamedWant, vC14Named4Want, vC14AnyWant, vC14AnyWant}
+	names := []string{"E0", "E1", "P0", "P1", "N0", "N1", "A0", "A1", "T0"}
+	sigs := []string{"error", "error", "(int, error)", "(int, error)", "(r int, err error)", "(a, b int, s string, err error)", "any", "any", "(int, string, error)"}
+	menus := [][]string{vC14ErrBodies, vC14ErrBodies, vC14PairBodies, vC14PairBodies, vC14NamedBodies, vC14Named4Bodies, vC14AnyBodies, vC14AnyBodies, vC14TripleBodies}
+	wants := []map[int]string{vC14ErrWant, vC14ErrWant, vC14PairWant, vC14PairWant, vC14NamedWant, vC14Named4Want, vC14AnyWant, vC14AnyWant, vC14TripleWant}
 	// fixed rotations: bodies that call into the symbolic ones
-	fixed := [][]int{{3, 2, 3, 2, 4, 3, 3, 2}, {1, 6, 6, 4, 2, 2, 7, 10}, {4, 8, 2, 9, 3, 4, 1, 2}, {24, 25, 15, 16, 5, 5, 4, 5}}
+	fixed := [][]int{{3, 2, 3, 2, 4, 3, 3, 2, 2}, {1, 6, 6, 4, 2, 2, 7, 10, 3}, {4, 8, 2, 9, 3, 4, 1, 2, 4}, {24, 25, 15, 16, 5, 5, 4, 5, 5}}
 	choice := make([]int, len(names))
 	src := vC14Prelude
 	for i := range names {
@@ -367,7 +380,7 @@ func Verif_C14_ResultsOf(sym int, fix int) {
 	for i, name := range names {
 		all = append(all, asked{p, p.Function(name), name, wants[i][choice[i]]})
 	}
-	for _, name := range []string{"h", "h2", "h3", "w", "w2"} {
+	for _, name := range []string{"h", "h2", "h3", "w", "w2", "c1"} {
 		all = append(all, asked{p, p.Function(name), name, ""})
 	}
 	// methods are functions of the package too: the interface's and the declared ones
